@@ -1,6 +1,6 @@
 from ..props import prop
 
-# Nine random-workload drivers plus the witness driver (one translation unit each) so that they compile in parallel; every driver shares drivers/c17/typed.hpp.
+# Ten random-workload drivers plus the witness driver (one translation unit each) so that they compile in parallel; every driver shares drivers/c17/typed.hpp.
 # -g1 keeps line tables for sanitizer reports and drops variable tracking (the drivers are template-heavy: ~30 types x 5 formats each).
 _XF = "-g1"
 
@@ -16,7 +16,7 @@ N_WITNESSES = 25      # drivers/c17_witness.cpp: one case per witness
 
 
 def _st(name, quick):
-    return dict(name=name, driver="c17_" + name, flagset="asan", extra_flags=_XF, quick=quick, thorough=quick * 100, args=list(_KNOWN))
+    return dict(name=name, driver="c17_" + name, flagset="asan", extra_flags=_XF, quick=quick, thorough=quick * 12, args=list(_KNOWN))
 
 
 prop("C17", level="exploration",
@@ -24,10 +24,13 @@ prop("C17", level="exploration",
                 "incl. the typed-array element types and vector<uint8_t>; map/unordered_map/multimap with string and integer keys; nested containers of containers; pair; tuples incl. empty and nested; optional; "
                 "variant; shared_ptr/unique_ptr; chrono durations (s, ms, ns; integer and floating reps); bitset<1..130>; enums (integer-backed, ENUM_TRAITS, ENUM_NAME_TRAITS); classes described by every trait macro "
                 "family ALL/N x MEMBER / CTOR_GETTER / GETTER_SETTER and their *_NAME_TRAITS variants, TPL_* templates, classes containing classes/containers/optionals/variants/enums/tuples/durations/bitsets; "
-                "JSONCONS_POLYMORPHIC_TRAITS hierarchies held in shared_ptr/unique_ptr, in vectors/maps of them and as class members) a seeded generator produces values t with an exact equality written for the monitor. "
+                "JSONCONS_POLYMORPHIC_TRAITS hierarchies held in shared_ptr/unique_ptr, in vectors/maps of them and as class members; std::wstring (empty, ASCII, non-ASCII BMP, astral, up to 400 characters) as a scalar, "
+                "in vector/set/pair/tuple/optional/shared_ptr/map<string,.> and as members of N_MEMBER and ALL_MEMBER_NAME classes) a seeded generator produces values t with an exact equality written for the monitor. "
                 "Every t is executed under ASan+UBSan through both routes in JSON text, CBOR, MessagePack, UBJSON and BSON: (1) decode_F<T>(encode_F(t)) == t; (2) json j(t), j.as<T>() == t, decode_F<T>(encode_F(j)) == t; "
                 "(3) encode_F(t) and encode_F(j), both decoded to basic_json by the same decoder, are structurally equal ignoring member order (strict comparer, not operator==); (4) try_encode_F / try_decode_F<T> / try_as<T> "
                 "agree with the throwing variants; stage 'overloads' repeats this for one representative type per decode_traits/encode_traits path through the std::ostream / std::istream / iterator-range overloads. "
+                "Stage 'wide' additionally sends the std::wstring types through the wchar_t routes: encode_json into std::wstring / decode_json from it, wjson(t) / wjson::as<T>(), try_ variants, the wide text compared (after the "
+                "monitor's own UTF-32 -> UTF-8 conversion) with the narrow basic_json value, narrow text widened by the monitor and decoded by the wide decoder and vice versa, and one shape damage per value through both wide routes. "
                 "Shape mismatch injection is type-directed: json(t) is damaged at exactly one position chosen by walking T (value of a kind that T's position cannot convert, mandatory member removed, object for a "
                 "sequence / array for a map or class, too few / too many elements for std::array, pair, tuple, non-numeric key for an integer-keyed map, unknown enumerator name) and the damaged document is fed to "
                 "as<T>()/try_as<T>() and, encoded in every format, to decode_F<T>/try_decode_F<T>: both routes must report an error through the library error channel (json_exception other than assertion_error, or an "
@@ -43,6 +46,9 @@ prop("C17", level="exploration",
                 "are executed but never judged; a null polymorphic pointer is generated at the root only; (g) tolerated difference between the two encodings: the same value carrying a semantic tag on one side only "
                 "(counted under tolerated.tag-only-difference), int64/uint64 kinds of the same non-negative integer; (h) a try_ function that throws a library exception instead of returning an unexpected result is counted "
                 "(observed.try_*-threw-library-exception), not judged. Types/routes that do not compile are recorded under uncompilable.* (see the final rule text) and are exercised through the remaining routes. "
+                "(i) wide routes: as<std::wstring>() on a narrow json requires a string (judged), on a wjson it returns the JSON text like as<std::string>() on a json (not judged); absent optional / null pointer positions are "
+                "not judged through the wide routes; std::map<std::string,V> and classes described with narrow *_NAME_TRAITS literals do not compile with wjson or a wide encoder, std::map<std::wstring,V> does not compile with "
+                "the narrow routes, std::u16string/std::u32string have no traits (all recorded under uncompilable.*). "
                 "Objects returned for input that should have been refused are rendered in a child process (they may be uninitialised). "
                 "Known root causes: every root cause found by this monitor has an id, a class predicate (known_value_class / known_damage_class in typed.hpp) and 1-3 fixed witnesses "
                 "(stage 'witnesses', c17_witness.cpp, one case each, executed on every run and reported as typed/witness/<id> only while the library still misbehaves on them); "
@@ -57,7 +63,7 @@ prop("C17", level="exploration",
      assumptions=["generators and exact equalities in drivers/c17/typed.hpp, types_enum.hpp, types_class.hpp, types_poly.hpp", "strict structural compare drivers/common/jvalue.hpp",
                   "documented per-format restrictions transcribed in fmt_domain() / rt_bson() of drivers/c17/typed.hpp",
                   "the C17_SHARED_REV static_assert in the drivers is a leftover of the time when the build cache did not hash drivers/c17/*; it no longer needs bumping"],
-     stages=[_st("scalars", 240000), _st("special", 160000), _st("variants", 128000), _st("sequences", 112000), _st("fixed", 96000), _st("maps", 112000),
+     stages=[_st("scalars", 200000), _st("special", 144000), _st("wide", 80000), _st("variants", 128000), _st("sequences", 112000), _st("fixed", 96000), _st("maps", 112000),
              _st("classes", 64000), _st("poly", 40000), _st("overloads", 96000),
              dict(name="witnesses", driver="c17_witness", flagset="asan", extra_flags=_XF, quick=N_WITNESSES, thorough=N_WITNESSES, args=["--mode", "witnesses"],
                   workers_quick=1, workers_thorough=1)])
